@@ -507,3 +507,84 @@ Theorem C07_resolves_text_refuted :
       /\ build_path Dot [RIdx 0] = "[0]"
       /\ C07_requery Dot C07_doc_anchored "[&x]" = Some [1; 2]%N).
 Proof. vm_compute. repeat split; reflexivity. Qed.
+
+(* ==================================================================== *)
+(* The loader guarantee [shared_closed] is no longer an assumption: it FOLLOWS,
+   for every combination of the options, from the computable document
+   well-formedness [doc_wf mt d] =
+     same_oid_same_tree d   two anchored occurrences that are one object (same
+                            oid) are the same tree - what sharing an alias
+                            object means for a tree that repeats a shared
+                            object wherever it is reachable;
+     c07_keys_leaf d        mapping keys and set members are scalars;
+     merged_closed mt d []  a merged-in entry holds only anchored objects met
+                            before in document order (`<<: *x` names a mapping
+                            that stands earlier in the document).
+   harness/c07.py evaluates the EXTRACTED predicate on every encoded document
+   of every run (request paths-docwf), next to an independent evaluation on the
+   real object graph, so the hypothesis is tested on real loaded documents. *)
+From YP Require Import PathsDocWf PathsDocWfMain.
+
+Theorem C07_shared_closed_from_wf :
+  forall (mt : mtable) (d : node), doc_wf mt d = true -> forall o, shared_closed mt o d [] = true.
+Proof. exact doc_wf_shared_closed. Qed.
+Print Assumptions C07_shared_closed_from_wf.
+
+Theorem C07_alias_excluded_wf_partial :
+  forall lit re_search (mt : mtable) (tm : terms) (sp : sep) (o : opts) (d : node) (res : list hit),
+    o_anchors o = false -> o_expand o = false -> names_consistent (anc_occs d) = true ->
+    doc_wf mt d = true ->
+    search_doc lit re_search mt tm sp o d = Ok res ->
+    forall h, In h res -> vjustified lit re_search tm mt o d h.
+Proof. exact alias_excluded_wf. Qed.
+Print Assumptions C07_alias_excluded_wf_partial.
+
+(* where [merged_closed] fails: `a: {<<: {k: &v hit}}` / `b: *v`, =hit, default
+   alias options.  The merge source is an inline mapping that defines &v for the
+   first time; the merged-in a.k is hidden, &v is never recorded, and the alias
+   b is reported (replayed on the real code: ['b']).  Under the Coq reading b is
+   an aliased repeat (its original lies in a part the search does not enter);
+   the judge's reading takes merged-in entries out of the document when both
+   alias options are off and accepts b. *)
+Theorem C07_inline_merge_refuted :
+  same_oid_same_tree dw_doc = true /\ c07_keys_leaf dw_doc = true /\ names_consistent (anc_occs dw_doc) = true /\
+  merged_closed dw_mt dw_doc [] = false /\ shared_closed dw_mt dw_opts dw_doc [] = false /\
+  search_doc dw_lit dw_re dw_mt (mkterms false MEquals "*" "hit") Dot dw_opts dw_doc =
+    Ok [mkhit "b" [RKey (PStr "b")] HValue] /\
+  is_repeat (flat_map entry_occs (firstn 1 [(dw_leaf 1 "a", NMap (dw_i 2) [(dw_leaf 3 "k", dw_v)])])) dw_v = true.
+Proof. exact inline_merge_witness. Qed.
+Print Assumptions C07_inline_merge_refuted.
+
+(* non-vacuity: anchor + merge through an alias + alias of a value *)
+Example C07_doc_wf_example :
+  doc_wf dw_mt2 dw_doc2 = true /\ names_consistent (anc_occs dw_doc2) = true /\
+  search_doc dw_lit dw_re dw_mt2 (mkterms false MEquals "*" "hit") Dot dw_opts dw_doc2 =
+    Ok [mkhit "x.k" [RKey (PStr "x"); RKey (PStr "k")] HValue].
+Proof. exact doc_wf_example. Qed.
+
+Example C07_doc_wf_guards_hold :
+  doc_wf C07_mt3 C07_doc3 = true /\ doc_wf [] C07_doc_prune = true /\ doc_wf [] C07_doc_keyalias = true.
+Proof. vm_compute. repeat split; reflexivity. Qed.
+
+(* ==================================================================== *)
+(* "each at most once" in EVERY mode: all four alias-inclusion modes (the
+   exclusion modes included), every key mode, expansion on or off, any document
+   with anchors / aliases / merge keys - refnames off.  (C07_once needed
+   [transparent] and expansion off.) *)
+From YP Require Import PathsOnce.
+
+Theorem C07_once_any_mode :
+  forall lit re_search (mt : mtable) (tm : terms) (sp : sep) (o : opts) (d : node) (res : list hit),
+    o_anchors o = false -> nodup_keys d ->
+    search_doc lit re_search mt tm sp o d = Ok res -> NoDup (map h_loc res).
+Proof. exact once_any_mode. Qed.
+Print Assumptions C07_once_any_mode.
+
+Example C07_once_any_mode_hyps :
+  o_anchors C07_o_none = false /\ nodup_keys C07_doc3 /\
+  exists res, search_doc C07_lit0 C07_re0 C07_mt3 C07_tm_a Dot C07_o_none C07_doc3 = Ok res /\ res <> [].
+Proof.
+  split; [reflexivity|]. split.
+  - simpl. repeat split; repeat constructor; simpl; intuition discriminate.
+  - eexists. split; [vm_compute; reflexivity | discriminate].
+Qed.
